@@ -142,6 +142,7 @@ def rule_lexical(body, applied):
         ('R21', r'\.chunks_exact\(', '.chunks_exact_v('),
         ('R22', r'\bProjectivePoint::GENERATOR\b', 'ProjectivePoint::generator_v()'),
         ('R24', r'\.splice\(', '.splice_v('),
+        ('R25', r'\bVec::with_capacity\(', 'vec_with_capacity_v('),
         ('D2', r'\buse\s+[A-Za-z_][A-Za-z0-9_:{}, *]*;', ''),
         ('R3', r'\|_\|', '|_v0|'),
         ('R3', r'\.map_err\((BSVErrors::[A-Za-z0-9_]+)\)', r'.map_err(|e_v0| \1(e_v0))'),
@@ -308,6 +309,63 @@ def rule_for_over_vec(body, applied):
         body = body[:mm.start()] + hdr + first + body[ob + 1:cb + 1] + body[cb + 1:]
         applied.append({'rule': 'R11', 'pattern': 'for %s in %s' % (pat, expr)})
         pos = mm.start() + len(hdr)
+        k += 1
+    return body
+
+
+def rule_for_zip_enumerate(body, applied):
+    """R26: `for (I, (A, B)) in X.iter().zip(Y.iter()).enumerate() { BODY }`
+    -> `let mut idx_zK: usize = 0; while idx_zK < X.len() && idx_zK < Y.len() { let I = idx_zK; let A = &X[idx_zK]; let B = &Y[idx_zK]; idx_zK += 1; BODY }`
+    (zip stops at the shorter operand; enumerate counts from 0). BODY is copied token-for-token; it must not `continue`."""
+    k = 0
+    while True:
+        m, _ = mask(body)
+        mm = re.compile(r'\bfor\s+\(\s*(\w+)\s*,\s*\(\s*(\w+)\s*,\s*(\w+)\s*\)\s*\)\s+in\s+([A-Za-z_][\w.]*)\.iter\(\)\.zip\(\s*([A-Za-z_][\w.]*)\.iter\(\)\s*\)\.enumerate\(\)\s*\{').search(m)
+        if not mm:
+            break
+        i, a, b, x, y = mm.groups()
+        ob = mm.end() - 1
+        cb = match_close(m, ob)
+        if re.search(r'\bcontinue\b', m[ob:cb]):
+            raise GenError('R26: loop body uses continue')
+        hdr = 'let mut idx_z%d: usize = 0; while idx_z%d < %s.len() && idx_z%d < %s.len() {' % (k, k, x, k, y)
+        first = ' let %s = idx_z%d; let %s = &%s[idx_z%d]; let %s = &%s[idx_z%d]; idx_z%d += 1;' % (i, k, a, x, k, b, y, k, k)
+        body = body[:mm.start()] + hdr + first + body[ob + 1:]
+        applied.append({'rule': 'R26', 'pattern': 'for (%s, (%s, %s)) in %s.iter().zip(%s.iter()).enumerate()' % (i, a, b, x, y)})
+        k += 1
+    return body
+
+
+def rule_enumerate_find_filter_map(body, applied):
+    """R8: `X.iter().enumerate().find_map(|(I, T)| E)` -> block with an index loop returning the first `Some`;
+    `X.iter().enumerate().filter_map(|(I, T)| E).collect()` -> block with an index loop pushing every `Some` payload.
+    E is copied token-for-token."""
+    k = 0
+    while True:
+        m, _ = mask(body)
+        mm = re.compile(r'((?:[A-Za-z_]\w*)(?:\s*\.\s*[A-Za-z_]\w*)*?)\s*\.\s*iter\(\)\s*\.\s*enumerate\(\)\s*\.\s*(find_map|filter_map)\(\s*\|\s*\(\s*(\w+)\s*,\s*(\w+)\s*\)\s*\|').search(m)
+        if not mm:
+            break
+        x, which, i, t = mm.groups()
+        x = re.sub(r'\s+', '', x)
+        # closure body: up to the closing paren of find_map( at depth 0
+        op = m.index('(', mm.start(2))
+        cp = match_close(m, op)
+        expr = body[mm.end():cp]
+        end = cp + 1
+        if which == 'filter_map':
+            tail = re.compile(r'\s*\.collect\(\)').match(m, end)
+            if not tail:
+                raise GenError('R8: filter_map chain without .collect()')
+            end = tail.end()
+            rep = ('{ let mut acc_e%d = Vec::new(); let mut idx_e%d: usize = 0; while idx_e%d < %s.len() { let %s = idx_e%d; let %s = &%s[idx_e%d]; idx_e%d += 1; '
+                   'match (%s) { Some(item_e%d) => { acc_e%d.push(item_e%d); } None => {} } } acc_e%d }') % (k, k, k, x, i, k, t, x, k, k, expr, k, k, k, k)
+        else:
+            rep = ('{ let mut res_e%d = None; let mut idx_e%d: usize = 0; while idx_e%d < %s.len() { let %s = idx_e%d; let %s = &%s[idx_e%d]; idx_e%d += 1; '
+                   'match (%s) { Some(item_e%d) => { res_e%d = Some(item_e%d); break; } None => {} } } res_e%d }') % (k, k, k, x, i, k, t, x, k, k, expr, k, k, k, k)
+        body = body[:mm.start()] + rep + body[end:]
+        applied.append({'rule': 'R8', 'pattern': '%s.iter().enumerate().%s(|(%s, %s)| ..)' % (x, which, i, t),
+                        'closure_body_sha256': hashlib.sha256(norm_ws(expr).encode()).hexdigest()[:16]})
         k += 1
     return body
 
@@ -571,6 +629,11 @@ def splice(body, contract, applied):
                 raise GenError('%s: bad @%s' % (contract.origin, kind))
             a = mm.group(1)
             cnt = body.count(a)
+            if cnt == 0:
+                # the statement the proof hint was attached to is gone: the hint (a proof aid, not part of the
+                # contract) is dropped and the function is verified against its contract without it
+                degraded.append('%s `%s`' % (kind, a[:60]))
+                continue
             if cnt != 1:
                 raise GenError('%s: anchor `%s` occurs %d times in %s (lost anchor)' % (contract.origin, a, cnt, contract.key))
             p = body.index(a)
@@ -912,6 +975,8 @@ def emit_fn(contract, verified, info, key_override=None, skip_sigcheck_name=None
     body = rule_iter_chains(body, applied)
     body = rule_defunctionalise(body, applied)
     body = rule_and_then_chain(body, applied)
+    body = rule_for_zip_enumerate(body, applied)
+    body = rule_enumerate_find_filter_map(body, applied)
     body = rule_for_over_vec(body, applied)
     body = rule_for_range_with_continue(body, applied)
     body, nloops = splice(body, contract, applied)
@@ -942,6 +1007,7 @@ def vacuous_head(head):
 # --------------------------------------------------------------------------
 # contracts whose text needs the signature / interpreter shims: never pulled into other units by //@stubrest
 STUBREST_SKIP = {'Transaction::_verify', 'TxIn::get_finalised_script_impl'}
+STUBREST_SKIP_FILES = {'template.vc', 'interp_sig.vc', 'asm.vc'}
 
 
 def expand(unit, db=None, outdir=None, variant=None):
@@ -1011,7 +1077,7 @@ def expand(unit, db=None, outdir=None, variant=None):
         chunk = []
         for key in sorted(db):
             c = db[key]
-            if c.owner == owner and key not in emitted and key not in STUBREST_SKIP:
+            if c.owner == owner and key not in emitted and key not in STUBREST_SKIP and c.origin.split(':')[0] not in STUBREST_SKIP_FILES:
                 try:
                     chunk.append(emit_fn(c, False, info))
                     emitted.add(key)
